@@ -144,7 +144,7 @@ def run(tier="quick", seed=0, replay=None):
         cfg = next(iter(_expl.gen_configs(chk, kind, 1)))
         alpha = chk.rng.choice([Q(1), Q(1, 2), Q(1, 3), Q(1, 1000), Q(999, 1000)])
         dyn = chk.rng.random() < 0.65      # the bound is also defined (and computed from the CONFIGURED alpha) in the static setting
-        cfg = dict(cfg, d=chk.rng.randint(2, 4), dynamic=dyn, alpha=alpha, static_alpha=True, model_kind="scalar", imputer_kind="joint",
+        cfg = dict(cfg, d=chk.rng.randint(1, 4), dynamic=dyn, alpha=alpha, static_alpha=True, model_kind="scalar", imputer_kind="joint",
                    names_kind=chk.rng.choice(["str", "int", "float", "mixed", "intish", "intish"]), loss_kind="arbitrary", n_inner=1)
         rig = _expl.run_stream(chk, cfg, chk.rng.randint(0, 6))    # 0 and 1 calls: states without any estimate yet
         chk.case({"confidence_bound": True, "config": _expl.cfg_desc(cfg), "first_x": rig.steps[0]["x"] if rig.steps else None, "calls": len(rig.steps)}, nontrivial=True, sample=(i < 1))
